@@ -61,7 +61,7 @@ Proof.
   destruct (pg_all (c_src c)) as [src e] eqn:E.
   assert (pd_all (c_src c) <> [] -> src = c_src c) as Hs.
   { intros H. rewrite pg_all_filled in E by exact H. inversion E. reflexivity. }
-  destruct e; cbn [fst]; (repeat split; [intros og l H; exact H | exact Hs | intros j _; reflexivity | exists []; split; [reflexivity|intros og []]]).
+  destruct e; cbn [fst]; (split; [intros og l H; exact H | split; [exact Hs | split; [intros j _; reflexivity | exists []; split; [reflexivity|intros og []]]]]).
 Qed.
 
 Lemma pg_omap_find_cons : forall m og l x, pg_omap_find ((og, l) :: m) x = if x =? og then Some l else pg_omap_find m x.
@@ -159,4 +159,120 @@ Proof.
     pose proof (pg_cR_trans _ _ _ R12 R3) as R123.
     destruct (c_err (pg_reserve_kids (fun x c0 => pg_reserve f x false c0) h c2)); [exact R123|].
     eapply pg_cR_trans; [exact R123|]. unfold pg_reserve_done. destruct h; try apply pg_cR_refl. apply pg_cR_core; reflexivity.
+Qed.
+
+(* ------------------------------------------------------------------ Copier::copied *)
+Local Opaque pg_reserve.
+Definition pg_c0 (src dst : pg_doc) : pg_cst := mkPgCst src (pd_store dst) (pd_omap dst) [] [] None.
+Definition pg_cres (src dst : pg_doc) (fid : N) : pg_cst := pg_reserve 200 (PvRef fid) true (pg_c0 src dst).
+
+Lemma pg_copied_src : forall src dst fid, fst (fst (fst (pg_copied src dst fid))) = c_src (pg_cres src dst fid).
+Proof.
+  intros. unfold pg_copied. fold (pg_c0 src dst). fold (pg_cres src dst fid).
+  destruct (c_err (pg_cres src dst fid)); [reflexivity|].
+  destruct (fold_left _ _ _) as [[ds reg] e]. destruct e; [reflexivity|].
+  destruct (pg_omap_find _ _); reflexivity.
+Qed.
+
+Lemma pg_copied_omap : forall src dst fid, pd_omap (snd (fst (fst (pg_copied src dst fid)))) = c_omap (pg_cres src dst fid).
+Proof.
+  intros. unfold pg_copied. fold (pg_c0 src dst). fold (pg_cres src dst fid).
+  destruct (c_err (pg_cres src dst fid)); [reflexivity|].
+  destruct (fold_left _ _ _) as [[ds reg] e]. destruct e; [reflexivity|].
+  destruct (pg_omap_find _ _); reflexivity.
+Qed.
+
+(* "leave the source document unchanged": once the source's page cache is filled (getAllPages has been called on it, or
+   any page operation) copying from it does not touch it at all.  (With an empty cache the copier's isPagesObject /
+   isPageObject calls fill the cache of the SOURCE, repairs included: that is the only way it is ever changed.) *)
+Lemma copy_source_unchanged_lemma : forall src dst fid, pd_all src <> [] ->
+  fst (fst (fst (pg_copied src dst fid))) = src.
+Proof.
+  intros src dst fid H. rewrite pg_copied_src.
+  destruct (pg_cR_reserve 200 (PvRef fid) true (pg_c0 src dst)) as (_ & S & _). apply S. exact H.
+Qed.
+
+(* the object map is a function that only grows; what a successful copy returns is recorded in it; copying the same
+   object again returns the same local object *)
+Lemma copy_memo_lemma : forall src dst fid,
+  let '(src', dst', e, r) := pg_copied src dst fid in
+  (forall og l, pg_omap_find (pd_omap dst) og = Some l -> pg_omap_find (pd_omap dst') og = Some l) /\
+  (forall l, e = None -> r = PvRef l -> pg_omap_find (pd_omap dst') fid = Some l) /\
+  (forall l, e = None -> r = PvRef l ->
+     let '(_, _, e2, r2) := pg_copied src' dst' fid in e2 = None -> r2 = PvRef l).
+Proof.
+  intros src dst fid.
+  pose proof (pg_copied_omap src dst fid) as Ho.
+  destruct (pg_cR_reserve 200 (PvRef fid) true (pg_c0 src dst)) as (M & _).
+  destruct (pg_copied src dst fid) as [[[src' dst'] e] r] eqn:E. cbn [fst snd] in Ho.
+  assert (Hrec : forall l, e = None -> r = PvRef l -> pg_omap_find (pd_omap dst') fid = Some l).
+  { intros l -> ->. rewrite Ho. unfold pg_copied in E. fold (pg_c0 src dst) in E. fold (pg_cres src dst fid) in E.
+    destruct (c_err (pg_cres src dst fid)); [inversion E|].
+    destruct (fold_left _ _ _) as [[ds reg] e0]. destruct e0; [inversion E|].
+    destruct (pg_omap_find (c_omap (pg_cres src dst fid)) fid); inversion E. reflexivity. }
+  split; [|split; [exact Hrec|]].
+  - intros og l H. rewrite Ho. apply M. exact H.
+  - intros l He Hr. specialize (Hrec l He Hr).
+    pose proof (pg_copied_omap src' dst' fid) as Ho2.
+    destruct (pg_cR_reserve 200 (PvRef fid) true (pg_c0 src' dst')) as (M2 & _).
+    destruct (pg_copied src' dst' fid) as [[[src2 dst2] e2] r2] eqn:E2. cbn [fst snd] in Ho2.
+    intros ->. unfold pg_copied in E2. fold (pg_c0 src' dst') in E2. fold (pg_cres src' dst' fid) in E2.
+    destruct (c_err (pg_cres src' dst' fid)); [inversion E2|].
+    destruct (fold_left _ _ _) as [[ds reg] e0]. destruct e0; [inversion E2|].
+    assert (pg_omap_find (c_omap (pg_cres src' dst' fid)) fid = Some l) as Hf by (apply M2; exact Hrec).
+    rewrite Hf in E2. inversion E2. reflexivity.
+Qed.
+
+(* "nothing else touched": every object of the destination that is not null keeps its value - also when the copy
+   fails half way *)
+Lemma copy_frame_lemma : forall src dst fid j cell,
+  pg_lookup (pd_store dst) j = Some cell -> pg_is_null (pd_store dst) (PvRef j) = false ->
+  pg_lookup (pd_store (snd (fst (fst (pg_copied src dst fid))))) j = Some cell.
+Proof.
+  intros src dst fid j cell Hj Hnn.
+  destruct (pg_cR_reserve 200 (PvRef fid) true (pg_c0 src dst)) as (_ & _ & D & more & T & NN).
+  fold (pg_cres src dst fid) in *. cbn [pg_c0 c_dst c_tocopy] in *. rewrite app_nil_r in T.
+  assert (Hc : pg_lookup (c_dst (pg_cres src dst fid)) j = Some cell) by (rewrite D; [exact Hj | congruence]).
+  unfold pg_copied. fold (pg_c0 src dst). fold (pg_cres src dst fid).
+  destruct (c_err (pg_cres src dst fid)); [exact Hc|].
+  set (c := pg_cres src dst fid) in *.
+  (* the replacement loop writes only to the local objects of to_copy, which were absent or null *)
+  assert (Hfold : forall l0 ds reg e,
+            (forall og, In og l0 -> In og more) -> pg_lookup ds j = Some cell ->
+            pg_lookup (fst (fst (fold_left (fun '(ds, reg, e) og =>
+               match e with
+               | Some _ => (ds, reg, e)
+               | None =>
+                 match pg_omap_find (c_omap c) og with
+                 | None => (ds, reg, Some PeUnm)
+                 | Some l =>
+                   match pg_lookup (pd_store (c_src c)) og with
+                   | Some (PcStream d data _) =>
+                       let d0 := match pg_lookup ds l with Some (PcStream d0 _ _) => d0 | _ => [] end in
+                       (pg_supd ds l (PcStream (fold_left (fun acc kv => pg_dset acc (fst kv) (snd kv)) (pg_rename_dict (pd_store (c_src c)) (c_omap c) d) d0) [] l),
+                        match pg_stream_data (c_src c) og with Some x => pg_reg_set reg l x | None => reg end, None)
+                   | Some (PcObj v) =>
+                       if pg_is_null ds (PvRef l)
+                       then (pg_supd ds l (PcObj (pg_rename (pd_store (c_src c)) (c_omap c) v)), reg, None)
+                       else (ds, reg, Some PeLogic)
+                   | None => (ds, reg, Some PeUnm)
+                   end
+                 end
+               end) l0 (ds, reg, e)))) j = Some cell).
+  { induction l0 as [|og t IH]; intros ds reg e Hin Hds; [exact Hds|].
+    cbn [fold_left]. destruct e; [apply IH; [intros x Hx; apply Hin; right; exact Hx | exact Hds]|].
+    destruct (NN og (Hin og (or_introl eq_refl))) as (l & Hl & Hnull). rewrite Hl.
+    assert (l <> j) as Hlj by (intros ->; congruence).
+    destruct (pg_lookup (pd_store (c_src c)) og) as [[v|d data k]|].
+    - destruct (pg_is_null ds (PvRef l)); (apply IH; [intros x Hx; apply Hin; right; exact Hx|]); [|exact Hds].
+      rewrite pg_lookup_supd. destruct (j =? l) eqn:E; [apply N.eqb_eq in E; congruence | exact Hds].
+    - apply IH; [intros x Hx; apply Hin; right; exact Hx|].
+      rewrite pg_lookup_supd. destruct (j =? l) eqn:E; [apply N.eqb_eq in E; congruence | exact Hds].
+    - apply IH; [intros x Hx; apply Hin; right; exact Hx | exact Hds]. }
+  specialize (Hfold (rev' (c_tocopy c)) (c_dst c) (pd_reg dst) None).
+  assert (forall og, In og (rev' (c_tocopy c)) -> In og more) as Hin.
+  { intros og H. rewrite rev'_rev in H. apply in_rev in H. rewrite T in H. exact H. }
+  specialize (Hfold Hin Hc).
+  destruct (fold_left _ (rev' (c_tocopy c)) (c_dst c, pd_reg dst, None)) as [[ds reg] e]. cbn [fst] in Hfold.
+  destruct e; [exact Hfold|]. destruct (pg_omap_find (c_omap c) fid); exact Hfold.
 Qed.
